@@ -236,7 +236,7 @@ OpName == [op \in 0..255 |->
     [] OTHER -> "OP_UNKNOWN"]
 
 \* names accepted on input (without the OP_ prefix): canonical ones plus aliases
-NameTable == {<<"0", 0>>, <<"0NOTEQUAL", 146>>, <<"1", 81>>, <<"10", 90>>, <<"11", 91>>, <<"12", 92>>, <<"13", 93>>, <<"14", 94>>, <<"15", 95>>, <<"16", 96>>, <<"1ADD", 139>>, <<"1NEGATE", 79>>, <<"1SUB", 140>>, <<"2", 82>>, <<"2DIV", 142>>, <<"2DROP", 109>>, <<"2DUP", 110>>, <<"2MUL", 141>>, <<"2OVER", 112>>, <<"2ROT", 113>>, <<"2SWAP", 114>>, <<"3", 83>>, <<"3DUP", 111>>, <<"4", 84>>, <<"5", 85>>, <<"6", 86>>, <<"7", 87>>, <<"8", 88>>, <<"9", 89>>, <<"ABS", 144>>, <<"ADD", 147>>, <<"AND", 132>>, <<"BOOLAND", 154>>, <<"BOOLOR", 155>>, <<"CAT", 126>>, <<"CHECKLOCKTIMEVERIFY", 177>>, <<"CHECKMULTISIG", 174>>, <<"CHECKMULTISIGVERIFY", 175>>, <<"CHECKSEQUENCEVERIFY", 178>>, <<"CHECKSIG", 172>>, <<"CHECKSIGADD", 186>>, <<"CHECKSIGVERIFY", 173>>, <<"CODESEPARATOR", 171>>, <<"DEPTH", 116>>, <<"DIV", 150>>, <<"DROP", 117>>, <<"DUP", 118>>, <<"ELSE", 103>>, <<"ENDIF", 104>>, <<"EQUAL", 135>>, <<"EQUALVERIFY", 136>>, <<"FALSE", 0>>, <<"FROMALTSTACK", 108>>, <<"GREATERTHAN", 160>>, <<"GREATERTHANOREQUAL", 162>>, <<"HASH160", 169>>, <<"HASH256", 170>>, <<"IF", 99>>, <<"IFDUP", 115>>, <<"INVERT", 131>>, <<"LEFT", 128>>, <<"LESSTHAN", 159>>, <<"LESSTHANOREQUAL", 161>>, <<"LSHIFT", 152>>, <<"MAX", 164>>, <<"MIN", 163>>, <<"MOD", 151>>, <<"MUL", 149>>, <<"NEGATE", 143>>, <<"NIP", 119>>, <<"NOP", 97>>, <<"NOP1", 176>>, <<"NOP10", 185>>, <<"NOP2", 177>>, <<"NOP3", 178>>, <<"NOP4", 179>>, <<"NOP5", 180>>, <<"NOP6", 181>>, <<"NOP7", 182>>, <<"NOP8", 183>>, <<"NOP9", 184>>, <<"NOT", 145>>, <<"NOTIF", 100>>, <<"NUMEQUAL", 156>>, <<"NUMEQUALVERIFY", 157>>, <<"NUMNOTEQUAL", 158>>, <<"OR", 133>>, <<"OVER", 120>>, <<"PICK", 121>>, <<"PUSHDATA1", 76>>, <<"PUSHDATA2", 77>>, <<"PUSHDATA4", 78>>, <<"RESERVED", 80>>, <<"RESERVED1", 137>>, <<"RESERVED2", 138>>, <<"RETURN", 106>>, <<"RIGHT", 129>>, <<"RIPEMD160", 166>>, <<"ROLL", 122>>, <<"ROT", 123>>, <<"RSHIFT", 153>>, <<"SHA1", 167>>, <<"SHA256", 168>>, <<"SIZE", 130>>, <<"SUB", 148>>, <<"SUBSTR", 127>>, <<"SWAP", 124>>, <<"TOALTSTACK", 107>>, <<"TRUE", 81>>, <<"TUCK", 125>>, <<"VER", 98>>, <<"VERIF", 101>>, <<"VERIFY", 105>>, <<"VERNOTIF", 102>>, <<"WITHIN", 165>>, <<"XOR", 134>>}
+NameTable == {<<"0", 0>>, <<"0NOTEQUAL", 146>>, <<"1", 81>>, <<"10", 90>>, <<"11", 91>>, <<"12", 92>>, <<"13", 93>>, <<"14", 94>>, <<"15", 95>>, <<"16", 96>>, <<"1ADD", 139>>, <<"1NEGATE", 79>>, <<"1SUB", 140>>, <<"2", 82>>, <<"2DIV", 142>>, <<"2DROP", 109>>, <<"2DUP", 110>>, <<"2MUL", 141>>, <<"2OVER", 112>>, <<"2ROT", 113>>, <<"2SWAP", 114>>, <<"3", 83>>, <<"3DUP", 111>>, <<"4", 84>>, <<"5", 85>>, <<"6", 86>>, <<"7", 87>>, <<"8", 88>>, <<"9", 89>>, <<"ABS", 144>>, <<"ADD", 147>>, <<"AND", 132>>, <<"BOOLAND", 154>>, <<"BOOLOR", 155>>, <<"CAT", 126>>, <<"CHECKLOCKTIMEVERIFY", 177>>, <<"CHECKMULTISIG", 174>>, <<"CHECKMULTISIGVERIFY", 175>>, <<"CHECKSEQUENCEVERIFY", 178>>, <<"CHECKSIG", 172>>, <<"CHECKSIGADD", 186>>, <<"CHECKSIGVERIFY", 173>>, <<"CODESEPARATOR", 171>>, <<"DEPTH", 116>>, <<"DIV", 150>>, <<"DROP", 117>>, <<"DUP", 118>>, <<"ELSE", 103>>, <<"ENDIF", 104>>, <<"EQUAL", 135>>, <<"EQUALVERIFY", 136>>, <<"FALSE", 0>>, <<"FROMALTSTACK", 108>>, <<"GREATERTHAN", 160>>, <<"GREATERTHANOREQUAL", 162>>, <<"HASH160", 169>>, <<"HASH256", 170>>, <<"IF", 99>>, <<"IFDUP", 115>>, <<"INVERT", 131>>, <<"LEFT", 128>>, <<"LESSTHAN", 159>>, <<"LESSTHANOREQUAL", 161>>, <<"LSHIFT", 152>>, <<"MAX", 164>>, <<"MIN", 163>>, <<"MOD", 151>>, <<"MUL", 149>>, <<"NEGATE", 143>>, <<"NIP", 119>>, <<"NOP", 97>>, <<"NOP1", 176>>, <<"NOP10", 185>>, <<"NOP4", 179>>, <<"NOP5", 180>>, <<"NOP6", 181>>, <<"NOP7", 182>>, <<"NOP8", 183>>, <<"NOP9", 184>>, <<"NOT", 145>>, <<"NOTIF", 100>>, <<"NUMEQUAL", 156>>, <<"NUMEQUALVERIFY", 157>>, <<"NUMNOTEQUAL", 158>>, <<"OR", 133>>, <<"OVER", 120>>, <<"PICK", 121>>, <<"PUSHDATA1", 76>>, <<"PUSHDATA2", 77>>, <<"PUSHDATA4", 78>>, <<"RESERVED", 80>>, <<"RESERVED1", 137>>, <<"RESERVED2", 138>>, <<"RETURN", 106>>, <<"RIGHT", 129>>, <<"RIPEMD160", 166>>, <<"ROLL", 122>>, <<"ROT", 123>>, <<"RSHIFT", 153>>, <<"SHA1", 167>>, <<"SHA256", 168>>, <<"SIZE", 130>>, <<"SUB", 148>>, <<"SUBSTR", 127>>, <<"SWAP", 124>>, <<"TOALTSTACK", 107>>, <<"TRUE", 81>>, <<"TUCK", 125>>, <<"VER", 98>>, <<"VERIF", 101>>, <<"VERIFY", 105>>, <<"VERNOTIF", 102>>, <<"WITHIN", 165>>, <<"XOR", 134>>}
 
 IsDefinedOpcode(op) == op <= OP_NOP10 \/ op = OP_CHECKSIGADD
 DisabledOps == {OP_CAT, OP_SUBSTR, OP_LEFT, OP_RIGHT, OP_INVERT, OP_AND, OP_OR, OP_XOR, OP_2MUL, OP_2DIV,
